@@ -231,6 +231,11 @@ func cmdCheck(eng *Engine, args []string, tier string, keep, verbose bool, start
 	if len(samples) == 0 {
 		samples = append(samples, map[string]interface{}{"note": "no obligations generated"})
 	}
+	// thorough tier: contract validation against the real code (validate.go)
+	var vstats *validateStats
+	if tier == "thorough" && os.Getenv("VERIF_NOVALIDATE") == "" {
+		vstats = validateProp(eng, results)
+	}
 	wall := time.Since(start).Seconds()
 	ev := map[string]interface{}{
 		"property_id": prop,
@@ -257,6 +262,17 @@ func cmdCheck(eng *Engine, args []string, tier string, keep, verbose bool, start
 		"wall_s":      wall,
 		"violations":  violations,
 	}
+	modelErr := false
+	if vstats != nil {
+		cov := ev["coverage"].(map[string]interface{})
+		cov["contract_validation"] = vstats
+		cov["traces_validated_against_impl"] = vstats.Accepted
+		cov["explanation"] = "thorough tier: besides the proof obligations (longer solver limits), every fully proved function whose inputs can be built was run on small random inputs satisfying its requires clauses and its executable ensures clauses were evaluated on the real code (contract_validation); a disagreement is an error of the machinery, not a property violation"
+		for _, d := range vstats.Disagreements {
+			lines = append(lines, fmt.Sprintf("MODEL-DISAGREEMENT property=%s %s", prop, d))
+			modelErr = true
+		}
+	}
 	if nObl == 0 {
 		lines = append(lines, fmt.Sprintf("VIOLATION property=%s replay=%s no-failing-input-found", prop, filepath.Join(replayDir, "no_obligations.json")))
 		os.MkdirAll(replayDir, 0o755)
@@ -274,6 +290,10 @@ func cmdCheck(eng *Engine, args []string, tier string, keep, verbose bool, start
 		prop, tier, len(funcsUnder), len(lemmas), nObl, nDis, violations, len(knownPrinted), wall, stats.Wins)
 	if violations > 0 {
 		return 1
+	}
+	if modelErr {
+		// a proved clause is false on the real code: the machinery (or one of its assumptions) is wrong
+		return 2
 	}
 	return 0
 }
